@@ -1,7 +1,7 @@
 (* C02/Driver.v — entry points for the correspondence run (extracted to OCaml).
    run_encode : case tokens (a dump model as integers) -> dump bytes (extracted encode_dump)
    run_observe: dump bytes -> observables of decode_dump, in the shape the harness prints *)
-From RM Require Import C02.Model C02.ModelR5.
+From RM Require Import C02.Model C02.ModelR5 C02.ModelR6.
 From RM Require Import C08.Model.
 Open Scope Z_scope.
 
@@ -235,6 +235,26 @@ Definition names_map (l : list (Z * list Z)) : list (Z * list Z) := fold_left (f
 (* ---- Linux key/value text: linux_list_iter is ModelR5.kv_pairs (c02_kv_roundtrip) *)
 Definition kv_items (sep : Z) (b : list Z) : list (list Z) :=
   map (fun kv => str (fst kv) ++ str (snd kv)) (kv_pairs sep b).
+(* ---- Linux maps: what MinidumpLinuxMaps::read makes of the text (ModelR6.parse_maps, c02_maps_roundtrip): first the
+   outcome in a debug and in a release build (2 = regions, 1 = StreamReadFailure, 3 = panic), then one item per region:
+   the two addresses, permission bits, offset, device, inode, whether memory_range() is Some, the kind of name *)
+Definition mpath_obs (p : mpath) : list Z :=
+  match p with
+  | PPath s => 0 :: str s
+  | PHeap => [1] | PStack => [2]
+  | PTStack tid => [3; tid]
+  | PVdso => [4] | PVvar => [5] | PVsyscall => [6] | PRollup => [7] | PAnon => [8]
+  | PVsys v => [9; v]
+  | POther s => 10 :: str s
+  end.
+Definition mmap_obs (m : mmap) : list Z :=
+  [mm_lo m; mm_hi m; mm_perms m; mm_off m; mm_maj m; mm_min m; mm_inode m; if mm_range_ok m then 1 else 0] ++ mpath_obs (mm_path m).
+Definition ostatus {A} (o : outcome A) : Z :=
+  match o with Ret _ => 2 | Fail => 1 | Panic _ => 3 | OutOfFuel => 4 end.
+Definition maps_obs (b : list Z) : list (list Z) :=
+  let d := parse_maps Debug b in
+  let r := parse_maps Release b in
+  [ostatus d; ostatus r] :: match r with Ret l => map mmap_obs l | _ => [] end.
 Fixpoint until_zero (l : list Z) : list Z :=
   match l with [] => [] | c :: t => if c =? 0 then [] else c :: until_zero t end.
 (* utf16_to_string: units up to the first NUL, None when they are not valid UTF-16 *)
@@ -371,7 +391,7 @@ Definition run_observe (bytes : list Z) : option (list (Z * list (list Z))) :=
              sec (v_lx_status v) (fun b => str b :: kv_items 58 b);
              sec (v_lx_lsb v) (fun b => str b :: kv_items 61 b);
              sec (v_lx_environ v) (fun b => str b :: kv_items 61 b);
-             sec (v_lx_maps v) (fun b => [str b]);
+             sec (v_lx_maps v) (fun b => str b :: maps_obs b);
              sec (v_lx_limits v) (fun b => [str b]);
              sec (v_handles v) (fun x => map (fun h => [if fst x then 2 else 1; h_handle h; h_attr h; h_access h; h_hcount h; h_pcount h]
                                                        ++ ostr (h_type h) ++ ostr (h_object h)) (snd x));
